@@ -146,7 +146,7 @@ func vh_C04_check() {
 		// must not verify.  This is the constructive form of "equals HMAC over exactly the RFC span".
 		e, l := vxLen(1<<16), vxU16()
 		vxAssume(e >= 4)
-		vxAssume(e <= len(raw))
+		vxAssume(e <= off+4) // a prefix that ends before the MAC value (the MAC cannot cover itself)
 		other := make([]byte, e)
 		copy(other, raw[:e])
 		other[2], other[3] = byte(l>>8), byte(l)
